@@ -488,6 +488,9 @@ func atomByteVsConst(a *AtomByte, c *smt.T) *smt.T {
 		if !(v >= '0' && v <= '9' || v == '-') {
 			return smt.False
 		}
+		if v == '-' && !a.A.ID.LoInf && a.A.ID.Lo >= 0 {
+			return smt.False // a non-negative number has no sign
+		}
 	}
 	if v, ok := c.Int64(); ok && a.A.Kind == "tok" {
 		if !(v >= '0' && v <= '9' || v >= 'a' && v <= 'z' || v >= 'A' && v <= 'Z') {
@@ -965,6 +968,26 @@ func registerMisc(e *Engine) {
 			return AtomStr(&Atom{ID: a[0].(*smt.T), Len: 1, Kind: "dec"})
 		}
 		panic(abort("unsupported: FormatInt of symbolic value in base != 10"))
+	})
+	// the digit loop of strconv on a symbolic value: render as an opaque decimal token
+	e.onMaybe("strconv.formatBits", func(fr *Frame, a []Value) (Value, bool) {
+		u := a[1].(*smt.T)
+		if u.IsConst() {
+			return nil, false
+		}
+		if b, _ := a[2].(*smt.T).Int64(); b != 10 {
+			panic(abort("unsupported: formatting a symbolic integer in base != 10"))
+		}
+		id := u
+		if neg, _ := a[3].(*smt.T).BoolVal(); neg {
+			id = smt.Neg(u)
+		}
+		fr.p.eng.noteUse("model: decimal rendering of a symbolic integer is an opaque token")
+		atom := AtomStr(&Atom{ID: id, Len: 1, Kind: "dec"})
+		if app, _ := a[4].(*smt.T).BoolVal(); app {
+			return Tuple{append(append([]Value(nil), a[0].([]Value)...), atom.toBytes()...), Str{}}, true
+		}
+		return Tuple{[]Value(nil), atom}, true
 	})
 	atoi := func(fr *Frame, s Str) (Value, bool) {
 		if len(s.Segs) == 1 && s.Segs[0].A != nil && s.Segs[0].A.Kind == "dec" {
